@@ -77,6 +77,11 @@ func genCases(seed int64, n, length, reads, tplRuns int, scale string) []drive.R
 		} else {
 			c.Features = fsets[(int(seed)+i/2)%len(fsets)]
 		}
+		if i%3 == 2 {
+			// every third case: a back-dated transaction touching one (account, asset) in three postings between two
+			// later-dated ones (discriminates the order of the moves of one transaction and back-dated propagation)
+			c.Ops = drive.AddDirectedVolumeOps(c.Ops, []string{"users:b:main", "orders:2:main"}[(i/3)%2])
+		}
 		c.Points = []int{len(c.Ops)/2 + 2, len(c.Ops)}
 		cases[i] = c
 	}
